@@ -193,8 +193,14 @@ def functions():
     return fns
 
 
-def coq_run(ck: Ck, tag: str, exprs: list[str], timeout: int = 900, preamble: str = '') -> list[str] | None:
-    """Like ck.coq_eval, but safe to call from several threads (own directory per call)."""
+class Inconclusive(RuntimeError):
+    """The machine was too slow for a stage of the check: nothing is claimed (INTERNAL-ERROR), in particular no violation."""
+
+
+def coq_run(ck: Ck, tag: str, exprs: list[str], timeout: int = 1500, preamble: str = '') -> list[str] | None:
+    """Like ck.coq_eval, but safe to call from several threads (own directory per call).  A coqc process that does not finish
+    within `timeout` (far above what any block takes on a loaded machine: seconds in the quick tier, a minute or two in the
+    thorough one) makes the whole check inconclusive instead of failing an obligation."""
     d = Path(tempfile.mkdtemp(prefix=f'coq_{tag}_', dir=ck.scratch))
     body = ''.join(f'Require Import {i}.\n' for i in IMPORTS) + PRE
     body += 'Set Printing Width 1000000.\nSet Printing Depth 1000000.\n'
@@ -209,7 +215,7 @@ def coq_run(ck: Ck, tag: str, exprs: list[str], timeout: int = 900, preamble: st
                            preexec_fn=_unlimit_stack)
     except subprocess.TimeoutExpired:
         ck.notes.append(f'coqc timeout in {tag}')
-        return None
+        raise Inconclusive(f'coqc did not finish block {tag} within {timeout} s (machine too slow / too busy): inconclusive') from None
     if r.returncode != 0:
         ck.notes.append(f'coq_run {tag} failed: {(r.stdout + r.stderr)[-1200:]}')
         return None
@@ -1206,6 +1212,13 @@ OPS_CASES = [  # (label, method of RawFileSystem, branch)
     ('handle_open_str', 'open_str', 'File'), ('handle_cache_key', '_get_cache_key', 'File'),
 ]
 KCODE = {'open': 1, 'os.walk': 2, 'os.stat': 3, 'os.lstat': 3}
+# round 4: the inherited entry points and the methods of File: (label, name in Gen/FsCensus_gen.v entry_points, branch)
+ENTRY_CASES = [
+    ('e_getitem', '__getitem__', 'str'), ('e_contains', '__contains__', 'str'), ('e_read_kv1', 'read_kv1', 'str'),
+    ('e_read_kv1_handle', 'read_kv1', 'File'), ('e_read_prop', 'read_prop', 'str'), ('e_iter', '__iter__', 'str'),
+    ('e_file_open_bin', 'File.open_bin', 'File'), ('e_file_open_str', 'File.open_str', 'File'),
+    ('e_file_cache_key', 'File.cache_key', 'File'),
+]
 
 
 def _parse_option_list(v: str) -> list:
@@ -1242,9 +1255,76 @@ def corr_ops(ck: Ck) -> None:
         label, m, b = rng.choice(OPS_CASES)
         mk = lambda: rng.choice(['', '/', base + '/t/']) + join_kind(rng.choice([0, 0, 1, 2]), [rng.choice(SEGS) for _ in range(rng.choice([1, 2, 3, 4]))])
         cases.append((label, m, b, mk(), mk(), mk()))
+    ecases = []
+    for label, m, b in ENTRY_CASES:
+        for p in pool:
+            ecases.append((label, m, b, p, rng.choice(pool), rng.choice(pool)))
+    for _ in range(ck.budget(60, 600)):
+        label, m, b = rng.choice(ENTRY_CASES)
+        mk2 = lambda: rng.choice(['', '/', base + '/t/']) + join_kind(rng.choice([0, 0, 1, 2]), [rng.choice(SEGS) for _ in range(rng.choice([1, 2, 3, 4]))])
+        ecases.append((label, m, b, mk2(), mk2(), mk2()))
+    # routes: user code indexing / walking a FileSystemChain, also a chain inside a chain, around the constrained member
+    from srctools.filesys import FileSystemChain
+    rprefixes = ['', 'sub', 'sub/', 'x/..', '..', 'sub\\..', '/', 'root_evil']
+    rcases = []
+    for k in range(ck.budget(150, 900)):
+        depth = 1 + k % 2
+        rcases.append((('getitem', 'walk')[(k // 2) % 2], [rng.choice(rprefixes) for _ in range(depth)],
+                       pool[k % len(pool)] if k < 4 * len(pool) else mk()))
+    robserved = []
+    eobserved = []
     observed = []
     old = os.getcwd()
     os.chdir(base)
+
+    def perform_route(op, prefixes, arg):
+        fs = RawFileSystem(root)
+        for pre_ in reversed(prefixes):          # prefixes[0] is the outermost chain
+            fs = FileSystemChain((fs, pre_))
+        with observe() as ev:
+            try:
+                if op == 'getitem':
+                    fs[arg]
+                else:
+                    for _f in fs.walk_folder(arg):
+                        break
+            except (RootEscapeError, OSError, ValueError, UnicodeError):
+                pass
+        return sorted({(KCODE[k], p) for k, p in ev if k in KCODE})
+
+    def perform_entry(fs, label, arg, hpath, data):
+        """One call of an inherited entry point / a method of File; the (callee code, path) set the audit hook saw."""
+        import warnings
+        h = File(fs, hpath, data)
+        with observe() as ev:
+            try:
+                with warnings.catch_warnings():
+                    warnings.simplefilter('ignore')
+                    if label == 'e_getitem':
+                        fs[arg]
+                    elif label == 'e_contains':
+                        arg in fs
+                    elif label == 'e_read_kv1':
+                        fs.read_kv1(arg)
+                    elif label == 'e_read_kv1_handle':
+                        fs.read_kv1(h)
+                    elif label == 'e_read_prop':
+                        fs.read_prop(arg)
+                    elif label == 'e_iter':
+                        for _f in fs:
+                            break
+                    elif label == 'e_file_open_bin':
+                        h.open_bin().close()
+                    elif label == 'e_file_open_str':
+                        h.open_str().close()
+                    else:
+                        h.cache_key()
+            except (RootEscapeError, OSError, ValueError, UnicodeError):       # TokenSyntaxError is a ValueError? no: below
+                pass
+            except Exception as e:
+                if type(e).__name__ not in ('TokenSyntaxError', 'KeyValError'):
+                    raise
+        return sorted({(KCODE[k], p) for k, p in ev if k in KCODE})
 
     def perform(fs, label, arg, hpath, data):
         """One operation on one object; the (callee code, path) set the audit hook saw."""
@@ -1294,6 +1374,18 @@ def corr_ops(ck: Ck) -> None:
             ck.hist('ops_model_case', f'{label}:{"access" if observed[-1] else "no-access"}')
             if observed[-1] and ('..' in arg + hpath + data or '\\' in arg + hpath + data):
                 ck.seen(('ops', label, arg, hpath, data))
+        for op_, prefixes, arg in rcases:
+            robserved.append(perform_route(op_, prefixes, arg))
+            ck.count('route_model_cases')
+            ck.hist('route_model_case', f'{op_}:depth{len(prefixes)}:{"access" if robserved[-1] else "no-access"}')
+            if robserved[-1] and ('..' in arg + ''.join(prefixes) or '\\' in arg):
+                ck.seen(('route', op_, tuple(prefixes), arg))
+        for label, m, b, arg, hpath, data in ecases:
+            eobserved.append(perform_entry(RawFileSystem(root), label, arg, hpath, data))
+            ck.count('entry_point_model_cases')
+            ck.hist('entry_point_model_case', f'{label}:{"access" if eobserved[-1] else "no-access"}')
+            if eobserved[-1] and ('..' in arg + hpath + data or '\\' in arg + hpath + data):
+                ck.seen(('entry', label, arg, hpath, data))
         for steps in histories:
             objs = {True: RawFileSystem(root), False: RawFileSystem(root, constrain_path=False)}
             hist_observed.append([perform(objs[con], label, arg, hpath, data) for con, label, m, b, arg, hpath, data in steps])
@@ -1311,6 +1403,19 @@ def corr_ops(ck: Ck) -> None:
            'Definition predict (m b : string) (arg hpath data : str) : list (N * str) :=\n'
            '  map (fun x => (kcode (fst x), snd x)) (site_accesses raise_if o_cwd o_root '
            '{| i_arg := arg; i_data := data; i_hpath := hpath; i_prefix := []; i_walked := [] |} m b raw_sites).\n')
+    pre += ('Definition epredict (name b : string) (arg hpath data : str) : list (N * str) :=\n'
+            '  map (fun x => (kcode (fst x), snd x)) (entry_accesses 4 raise_if o_cwd o_root entry_points raw_sites name b '
+            '{| i_arg := arg; i_data := data; i_hpath := hpath; i_prefix := []; i_walked := [] |}).\n')
+    pre += ('Definition rstep (m : string) (hops : list hop) (arg : str) : list (N * str) :=\n'
+            '  flat_map (fun s => if (String.eqb (st_method s) m && String.eqb (st_branch s) "str")%bool then\n'
+            '    match step_plain raise_if o_cwd {| sp_root := o_root; sp_con := true; sp_route := hops; sp_site := s;\n'
+            '      sp_in := {| i_arg := arg; i_data := []; i_hpath := []; i_prefix := []; i_walked := [] |} |} with\n'
+            '    | Some a => [(kcode (st_callee s), a)] | None => [] end else []) raw_sites.\n'
+            'Definition chain_hop (m : string) (prefix : str) : list hop :=\n'
+            '  map (fun c => {| h_call := c; h_prefix := prefix |}) (filter (fun c => String.eqb (cc_method c) m) chain_calls).\n'
+            'Definition entry_hop (m : string) : list hop :=\n'
+            '  map (fun c => {| h_call := c; h_prefix := [] |})\n'
+            '      (filter (fun c => (String.eqb (cc_method c) m && negb (reads_handle (cc_arg c)))%bool) entry_points).\n')
     pre += ('Definition hstep (con : bool) (m b : string) (arg hpath data : str) : list opcall :=\n'
             '  map (fun s => {| oc_root := o_root; oc_con := con; oc_site := s; oc_in := {| i_arg := arg; i_data := data; '
             'i_hpath := hpath; i_prefix := []; i_walked := [] |} |})\n'
@@ -1336,10 +1441,76 @@ def corr_ops(ck: Ck) -> None:
                                  f'{coq_str(cases[k][5])}' for k in idx) + ']',
                  '[' + '; '.join(f'has_method "{m}" "{b}" raw_sites' for _, m, b in OPS_CASES) + ']']
         return coq_run(ck, f'ops{idx[0]}', exprs, preamble=pre)
+    echunks = [list(range(lo, min(lo + 150, len(ecases)))) for lo in range(0, len(ecases), 150)]
+
+    def ebatch(idx):
+        return coq_run(ck, f'entry{idx[0]}', ['[' + '; '.join(
+            f'epredict "{ecases[k][1]}" "{ecases[k][2]}" {coq_str(ecases[k][3])} {coq_str(ecases[k][4])} {coq_str(ecases[k][5])}'
+            for k in idx) + ']'], preamble=pre)
+    rchunks = [list(range(lo, min(lo + 150, len(rcases)))) for lo in range(0, len(rcases), 150)]
+
+    def rexpr(k):
+        op_, prefixes, arg = rcases[k]
+        if op_ == 'getitem':
+            hops = ' ++ '.join(['entry_hop "__getitem__"'] + [f'chain_hop "_get_file" {coq_str(p_)}' for p_ in prefixes])
+            return f'rstep "_get_file" ({hops}) {coq_str(arg)}'
+        hops = ' ++ '.join(f'chain_hop "walk_folder_repeat" {coq_str(p_)}' for p_ in prefixes)
+        return f'rstep "walk_folder" ({hops}) {coq_str(arg)}'
+
+    def rbatch(idx):
+        return coq_run(ck, f'route{idx[0]}', ['[' + '; '.join(rexpr(k) for k in idx) + ']'], preamble=pre)
     with ThreadPoolExecutor(max_workers=6) as ex:
         hist_futs = [ex.submit(hist_batch, lo) for lo in hist_los]
+        efuts = [ex.submit(ebatch, idx) for idx in echunks]
+        rfuts = [ex.submit(rbatch, idx) for idx in rchunks]
         outs = list(ex.map(batch, chunks))
         hist_outs = [f.result() for f in hist_futs]
+        eouts = [f.result() for f in efuts]
+        routs = [f.result() for f in rfuts]
+    rbad = []
+    rfailed = False
+    for idx, vals in zip(rchunks, routs):
+        if vals is None:
+            rfailed = True
+            continue
+        for k, pred in zip(idx, parse_coq_nested(vals[0])):
+            model = sorted({(int(c), ''.join(chr(x) for x in a)) for c, a in pred})
+            if model != robserved[k]:
+                rbad.append({'op': rcases[k][0], 'chain_prefixes_outermost_first': rcases[k][1], 'arg': rcases[k][2].replace(base, '{BASE}'),
+                             'observed': [[c, p.replace(base, '{BASE}')] for c, p in robserved[k]],
+                             'model': [[c, p.replace(base, '{BASE}')] for c, p in model]})
+    ck.obligation('correspondence:route_model', not rbad and not rfailed,
+                  f'{len(rcases)} lookups / walks through a FileSystemChain and a chain inside a chain (prefixes {rprefixes}) around '
+                  f'a constrained member: step_plain of SM/PathProperty.v over the route built from Gen entry_points and '
+                  f'chain_calls vs the accesses observed: {len(rbad)} disagreements'
+                  + ('; model could not be evaluated' if rfailed else '') + (f'; first: {rbad[0]}' if rbad else ''))
+    if rbad or rfailed:
+        ck.tie_broken.append('correspondence routes (SM/PathProperty.v step_plain vs observed OS accesses through nested chains)')
+        ck.extra['route_model_disagreements'] = rbad[:5]
+        DISAGREE.setdefault('route', set()).update(b_['op'] for b_ in rbad)
+    ebad = []
+    efailed = False
+    for idx, vals in zip(echunks, eouts):
+        if vals is None:
+            efailed = True
+            continue
+        for k, pred in zip(idx, parse_coq_nested(vals[0])):
+            model = sorted({(int(c), ''.join(chr(x) for x in a)) for c, a in pred})
+            if model != eobserved[k]:
+                ebad.append({'entry_point': ecases[k][1], 'branch': ecases[k][2], 'arg': ecases[k][3].replace(base, '{BASE}'),
+                             'handle_path': ecases[k][4].replace(base, '{BASE}'), 'handle_data': ecases[k][5].replace(base, '{BASE}'),
+                             'observed': [[c, p.replace(base, '{BASE}')] for c, p in eobserved[k]],
+                             'model': [[c, p.replace(base, '{BASE}')] for c, p in model]})
+    ck.obligation('correspondence:entry_points_model', not ebad and not efailed,
+                  f'{len(ecases)} calls of the inherited entry points (fs[x], x in fs, read_kv1, read_prop, iteration) and of '
+                  f'File.open_bin / open_str / cache_key: the accesses the model derives by following Gen/FsCensus_gen.v '
+                  f'entry_points down to the sites of Gen/FsOps_gen.v vs the accesses observed by the audit hook: '
+                  f'{len(ebad)} disagreements' + ('; model could not be evaluated' if efailed else '')
+                  + (f'; first: {ebad[0]}' if ebad else ''))
+    if ebad or efailed:
+        ck.tie_broken.append('correspondence entry points (Gen/FsCensus_gen.v entry_points + SM/PathProperty.v vs observed OS accesses)')
+        ck.extra['entry_point_model_disagreements'] = ebad[:5]
+        DISAGREE.setdefault('entry', set()).update(b_['entry_point'] for b_ in ebad)
     for idx, vals in zip(chunks, outs):
         if vals is None:
             ck.obligation('correspondence:operations_model', False, 'model could not be evaluated')
@@ -1617,6 +1788,10 @@ def run(ck: Ck) -> None:
         ck.explain('correspondence:operations_model')
     if DISAGREE.get('history') and any(k.startswith(ESCAPE_KEYS) for k in keys):
         ck.explain('correspondence:history_model')
+    if DISAGREE.get('route') and any(k.startswith(ESCAPE_KEYS) for k in keys):
+        ck.explain('correspondence:route_model')
+    if DISAGREE.get('entry') and any(k.startswith(ESCAPE_KEYS) for k in keys):
+        ck.explain('correspondence:entry_points_model')
     for stage, ob in (('exhaustive', 'correspondence:paths_exhaustive'), ('random', 'correspondence:paths_random')):
         fs = DISAGREE.get(stage, set())
         if fs and all(f == 'unify_path' and 'unify-path-escapes' in keys
